@@ -157,6 +157,10 @@ pub fn run(cfg: &RunCfg) -> Report {
     );
     if let Some(r) = &cfg.replay {
         let c = case_from_replay(r).expect("bad replay");
+        if r.get("case").unwrap_or(r).get("tagged_template").is_some() {
+            tagged_templates(&mut rep, Some(r.get("case").unwrap_or(r)));
+            return rep;
+        }
         if let Some(cm) = r.get("case").unwrap_or(r).get("cross_module").and_then(|x| x.as_array()) {
             cross_module(&mut rep, Some((cm[0].as_str().unwrap_or(""), cm[1].as_str().unwrap_or(""))));
             return rep;
@@ -189,7 +193,91 @@ pub fn run(cfg: &RunCfg) -> Report {
     // ... and when the definition mentions a class field (the linker rebuilds such definitions member by member)
     judge_class_field("c03", &cases, &mut rep, &describe);
     cross_module(&mut rep, None);
+    tagged_templates(&mut rep, None);
     rep
+}
+
+/// Tags on parameterized types and on their instances: `W {P} ::= [T] body`, `I ::= [I] W { arg }`. X.683 substitutes the
+/// instance into the template, so the instance carries its own tag outermost *and* the template's tag. Judged: the tag
+/// attribute of the instance's item (class and number). A tagged template is a listed finding (its tag is lost in the
+/// instance); the defective behaviour it lists is "the instance keeps exactly its own tag".
+fn tagged_templates(rep: &mut Report, only: Option<&serde_json::Value>) {
+    let envs = ["EXPLICIT TAGS", "IMPLICIT TAGS", "AUTOMATIC TAGS", ""];
+    let ttags = ["", "[APPLICATION 2] ", "[3] ", "[PRIVATE 4] IMPLICIT ", "[5] EXPLICIT "];
+    let itags = ["", "[PRIVATE 7] ", "[1] ", "[APPLICATION 9] EXPLICIT "];
+    let bodies = ["SEQUENCE { a P, b BOOLEAN }", "SET { a P }", "SEQUENCE OF P", "INTEGER (0..7)", "CHOICE { a P, b NULL }"];
+    let cn = |t: &str| -> Option<(String, String)> {
+        // "[CLASS n] KW " -> (class, n)
+        let inner = t.trim().strip_prefix('[')?.split(']').next()?.to_string();
+        let parts: Vec<&str> = inner.split_whitespace().collect();
+        match parts.as_slice() {
+            [n] => Some(("context".into(), n.to_string())),
+            [c, n] => Some((c.to_lowercase(), n.to_string())),
+            _ => None,
+        }
+    };
+    let mut k = 0usize;
+    for env in envs {
+        for tt in ttags {
+            for it in itags {
+                for body in bodies {
+                    k += 1;
+                    let case = json!({"tagged_template": [env, tt, it, body]});
+                    if let Some(o) = only {
+                        if o.get("tagged_template") != case.get("tagged_template") {
+                            continue;
+                        }
+                    }
+                    // names sorting both ways relative to the template
+                    let (w, i) = if k % 2 == 0 { (format!("Wrap{k}"), format!("Zinst{k}")) } else { (format!("Wrap{k}"), format!("Ainst{k}")) };
+                    let src = format!("Tpl-Mod DEFINITIONS {env} ::= BEGIN\n{w} {{ P }} ::= {tt}{body}\n{i} ::= {it}{w} {{ BOOLEAN }}\nEND\n");
+                    rep.evaluations += 1;
+                    rep.count("tagged-template");
+                    let want_own = cn(it);
+                    let want_tpl = cn(tt);
+                    match compile_rasn(&[src.clone()]) {
+                        Outcome::Ok { generated, .. } => match crate::proj::project(&generated) {
+                            Ok(ms) => {
+                                let Some(item) = ms.iter().find_map(|m| m.item(&i)) else {
+                                    rep.count("tagged-template:instance-not-generated(not judged)");
+                                    continue;
+                                };
+                                let seen: Option<(String, String)> = item.attrs.get("tag").map(|t| {
+                                    let t = t.trim_start_matches("explicit(").trim_end_matches(')');
+                                    let parts: Vec<&str> = t.split(',').map(|x| x.trim()).collect();
+                                    match parts.as_slice() {
+                                        [n] => ("context".to_string(), n.to_string()),
+                                        [c, n] => (c.to_string(), n.to_string()),
+                                        _ => ("?".to_string(), t.to_string()),
+                                    }
+                                });
+                                let case = json!({"tagged_template": [env, tt, it, body], "source": src, "instance_tag_seen": format!("{seen:?}")});
+                                match (&want_tpl, &want_own) {
+                                    (None, own) => {
+                                        if seen != *own {
+                                            rep.unsat("", false, json!({"why": format!("instance {i}: tag {seen:?}, written {own:?}"), "case": case}));
+                                        }
+                                    }
+                                    (Some(t), None) => {
+                                        if seen.as_ref() != Some(t) {
+                                            rep.unsat("C03_template_tag_lost_in_instances", seen.is_none(), json!({"why": format!("instance {i}: the template's tag {t:?} is not applied (seen {seen:?})"), "case": case}));
+                                        }
+                                    }
+                                    (Some(t), Some(o)) => {
+                                        // one attribute cannot carry both tags: the listed behaviour keeps the instance's own tag
+                                        rep.unsat("C03_template_tag_lost_in_instances", seen.as_ref() == Some(o), json!({"why": format!("instance {i}: written with {o:?} around a template tagged {t:?}, seen {seen:?}"), "case": case}));
+                                    }
+                                }
+                            }
+                            Err(e) => rep.harness_errors.push(format!("projection failed: {e}")),
+                        },
+                        Outcome::Err(_) => rep.count("tagged-template:err(not judged)"),
+                        Outcome::Panic(p) => rep.unsat("", false, json!({"why": format!("panic: {p}"), "case": case})),
+                    }
+                }
+            }
+        }
+    }
 }
 
 /// Components that come from another module (copied by COMPONENTS OF, or as the body of an imported parameterized
